@@ -56,6 +56,18 @@ theorem src_CreateIndexGroup_expected : src_CreateIndexGroup = "{ data.MaxIndexG
 
 theorem src_ShardGroupByTimestamp_expected : src_ShardGroupByTimestamp = "{ for i := len(rpi.ShardGroups) - 1; i >= 0; i-- { sgi := &rpi.ShardGroups[i] if sgi.EngineType == engineType && sgi.Contains(timestamp) && !sgi.Deleted() && (!sgi.Truncated() || timestamp.Before(sgi.TruncatedAt)) { return &rpi.ShardGroups[i] } } return nil }" := by rfl
 
+/-! shared-storage retention (`Shared.lean`) -/
+
+theorem src_GetExpiredShards_expected : src_GetExpiredShards = "{ t := time.Now().UTC() markDelSgInfos := []meta2.ExpiredShardInfos{} expiredShards := []meta2.ExpiredShardInfos{} dataBases := c.Databases() for dbName, db := range dataBases { if db.Options == nil || db.MarkDeleted { continue } obsOptions := db.Options dbPtInfos, err := c.DBPtView(dbName) if err != nil { continue } for rpName, rp := range db.RetentionPolicies { if rp.MarkDeleted { continue } for i := range rp.ShardGroups { if !rp.ShardGroups[i].Deleted() { if rp.Duration != 0 && rp.ShardGroups[i].EndTime.Add(rp.Duration).Before(t) { markDelSgInfos = append(markDelSgInfos, meta2.ExpiredShardInfos{Database: dbName, Policy: rpName, ShardGroupId: rp.ShardGroups[i].ID}) } continue } if rp.ShardGroups[i].DeletedAt.Add(RetentionDelayedTime).After(t) { continue } shardPaths := []string{} shardIds := []uint64{} for j := range rp.ShardGroups[i].Shards { if rp.ShardGroups[i].Shards[j].MarkDelete { continue } ptId := rp.ShardGroups[i].Shards[j].Owners[0] if dbPtInfos[ptId].Owner.NodeID != c.nodeID && dbPtInfos[ptId].Status == meta2.Online { continue } logPath := obs.GetShardPath( rp.ShardGroups[i].Shards[j].ID, rp.ShardGroups[i].Shards[j].IndexID, rp.ShardGroups[i].Shards[j].Owners[0], rp.ShardGroups[i].StartTime, rp.ShardGroups[i].EndTime, db.Name, rp.Name) shardPaths = append(shardPaths, logPath) shardIds = append(shardIds, rp.ShardGroups[i].Shards[j].ID) } expiredShards = append(expiredShards, meta2.ExpiredShardInfos{Database: dbName, Policy: rpName, ShardGroupId: rp.ShardGroups[i].ID, ShardIds: shardIds, ShardPaths: shardPaths, ObsOpts: obsOptions}) } } } return markDelSgInfos, expiredShards }" := by rfl
+
+theorem src_GetExpiredIndexes_expected : src_GetExpiredIndexes = "{ t := time.Now().UTC() expiredIndexes := []meta2.ExpiredIndexInfos{} dataBases := c.Databases() for dbName, db := range dataBases { if db.Options == nil || db.MarkDeleted { continue } dbPtInfos, err := c.DBPtView(dbName) if err != nil { continue } for rpName, rp := range db.RetentionPolicies { if rp.MarkDeleted { continue } for i := range rp.IndexGroups { if rp.Duration == 0 || rp.IndexGroups[i].EndTime.Add(rp.Duration+RetentionDelayedTime).After(t) { continue } indexIds := make([]uint64, 0, len(rp.IndexGroups[i].Indexes)) for j := range rp.IndexGroups[i].Indexes { ptId := rp.IndexGroups[i].Indexes[j].Owners[0] if dbPtInfos[ptId].Owner.NodeID != c.nodeID && dbPtInfos[ptId].Status == meta2.Online { continue } indexIds = append(indexIds, rp.IndexGroups[i].Indexes[j].ID) } expiredIndexes = append(expiredIndexes, meta2.ExpiredIndexInfos{Database: dbName, Policy: rpName, IndexGroupID: rp.IndexGroups[i].ID, IndexIDs: indexIds}) } } } return expiredIndexes }" := by rfl
+
+theorem src_RevertRetentionPolicyDelete_expected : src_RevertRetentionPolicyDelete = "{ rp, err := c.RetentionPolicy(database, name) if err != nil { return err } if rp == nil || rp.MarkDeleted { return meta2.ErrRetentionPolicyNotFound(name) } for i := range rp.ShardGroups { if !rp.ShardGroups[i].Deleted() { continue } err := c.DeleteShardGroup(database, name, rp.ShardGroups[i].ID, meta2.CancelDelete) if err != nil { return err } } return nil }" := by rfl
+
+theorem src_HandleSharedStorage_expected : src_HandleSharedStorage = "{ t := time.Now().UTC() var retryNeeded bool markDelSgInfos, deletedSgInfos := s.MetaClient.GetExpiredShards() for _, sginfo := range markDelSgInfos { err := s.MetaClient.DelayDeleteShardGroup(sginfo.Database, sginfo.Policy, sginfo.ShardGroupId, t, meta.MarkDelete) if err != nil { retryNeeded = true } } var err error for _, sginfo := range deletedSgInfos { for i := range sginfo.ShardPaths { err = fileops.DeleteObsPath(sginfo.ShardPaths[i], sginfo.ObsOpts) if err != nil { retryNeeded = true continue } err = fileops.DeleteObsPath(sginfo.ShardPaths[i], nil) if err != nil { retryNeeded = true continue } if err := s.MetaClient.PruneGroupsCommand(true, sginfo.ShardIds[i]); err != nil { retryNeeded = true continue } } } expiredIndexes := s.MetaClient.GetExpiredIndexes() for i := range expiredIndexes { if err := s.MetaClient.DeleteIndexGroup(expiredIndexes[i].Database, expiredIndexes[i].Policy, expiredIndexes[i].IndexGroupID); err != nil { retryNeeded = true continue } for j := range expiredIndexes[i].IndexIDs { if err := s.MetaClient.PruneGroupsCommand(false, expiredIndexes[i].IndexIDs[j]); err != nil { retryNeeded = true continue } } } return retryNeeded }" := by rfl
+
+theorem retentionDelayedTime_src_expected : retentionDelayedTime_src = "24 * time.Hour" := by rfl
+
 /-- `SetDuration` as the model was written against it: the duration is overwritten, whatever it
 is (0 = unlimited included); nothing else of the builder changes. -/
 theorem ixSetDuration_expected (b : IxBuilder) (d : Int) : ixSetDuration b d = { b with duration := d } := by rfl
